@@ -527,6 +527,22 @@ int main(int argc, char **argv) {
     };
     add_space(R, "version_rewrites", four, [](const Entry &) { return (uint64_t)65536; }, ver, mode0, true, true);
   }
+  // header reinterpretation: the same payload read as another (version, geometry type, method) - the legacy decode paths
+  // (bitstream < 2.3 / < 2.2 / 1.x) and the other geometry type's decoder get every stream of the sub-corpus
+  {
+    Mutator hdr = [](const Entry &e, uint64_t k, Bytes *out, std::string *op) {
+      const int major = 1 + (int)(k % 2), minor = (int)(k / 2 % 6), type = (int)(k / 12 % 2), method = (int)(k / 24 % 2);
+      if (e.bytes[5] == major && e.bytes[6] == minor && e.bytes[7] == type && e.bytes[8] == method) return false;
+      *out = e.bytes;
+      (*out)[5] = major;
+      (*out)[6] = minor;
+      (*out)[7] = type;
+      (*out)[8] = method;
+      *op = "header(" + std::to_string(major) + "." + std::to_string(minor) + ",type" + std::to_string(type) + ",method" + std::to_string(method) + ")";
+      return true;
+    };
+    add_space(R, "header_reinterpretation_all", all_small, [](const Entry &) { return (uint64_t)48; }, hdr, modes_q, true, true);
+  }
   // one entropy-coder seam value replaced
   {
     Mutator seam = [](const Entry &e, uint64_t k, Bytes *out, std::string *op) {
